@@ -99,7 +99,7 @@ func runCrash(prop string) *ShardResult {
 		cc.Cont = true
 		cc.WorkLen = func(l int) int { return []int{0, 2, 1, 1}[l] }
 		cc.Alpha = func(l int, m *core.Model) []core.Op {
-			ops := appendOps(m, small)
+			ops := appendOps(m, [][]int{{4}, {12}, {4, 4}})
 			ops = append(ops, delOps(m, true, true)...)
 			if l == 1 {
 				ops = append(ops, core.Op{K: "S", Key: "k1", Val: []byte("a")}, core.Op{K: "R"})
@@ -142,6 +142,8 @@ func runCrash(prop string) *ShardResult {
 		cc.WorkLen = func(l int) int { return wl(l) + 1 }
 	}
 	cc.ExpandPerClass = 3
+	cc.Lazy = prop == "C01" || prop == "C03" || prop == "C04" || prop == "C13"
+	res.Bounds["lazy_rotation_variant"] = cc.Lazy
 	cc.ChunkCap = 1 << 10
 	if thorough {
 		cc.ExpandPerClass = 24
